@@ -309,16 +309,20 @@ fn entry_family(acc: &mut Stats) {
 /// themselves) x one definite mismatch against a declared field / payload type, under every order of the top-level
 /// statements - rejected in all of them or in none
 fn type_order_family(acc: &mut Stats) {
-    let decls = ["A :: blob { b: B }", "B :: blob { x: int }", "E :: enum\n    V B,\n    W,\nend", "L :: enum\n    Cons (int, L),\n    Nil,\nend"];
-    let uses: [(&str, &str, bool); 8] = [
+    let decls = ["A :: blob { b: B }", "B :: blob { x: int, c: C }", "C :: blob { y: int }", "E :: enum\n    V B,\n    W,\nend", "L :: enum\n    Cons (int, L),\n    Nil,\nend"];
+    let uses: [(&str, &str, bool); 12] = [
         ("blob field of a blob type", "a :: A { b: 1 }", false),
-        ("blob field given the right blob", "a :: A { b: B { x: 1 } }", true),
+        ("blob field given the right blob", "a :: A { b: B { x: 1, c: C { y: 2 } } }", true),
         ("variant payload of a blob type", "e :: E.V 1", false),
-        ("variant payload given the right blob", "e :: E.V B { x: 1 }", true),
+        ("variant payload given the right blob", "e :: E.V B { x: 1, c: C { y: 2 } }", true),
         ("recursive enum payload", "l :: L.Cons (1, 2)", false),
         ("recursive enum payload given the enum", "l :: L.Cons (1, L.Nil)", true),
-        ("absent field through a field", "a :: A { b: B { x: 1 } }\n    print(a.b.nope)", false),
-        ("annotation with a later type", "a: A = B { x: 1 }", false),
+        ("absent field through a field", "a :: A { b: B { x: 1, c: C { y: 2 } } }\n    print(a.b.nope)", false),
+        ("annotation with a later type", "a: A = C { y: 1 }", false),
+        ("absent field three types deep through a parameter", "w :: fn q: A do\n        print(q.b.c.nope)\n    end", false),
+        ("field three types deep through a parameter", "w :: fn q: A -> int\n        q.b.c.y + q.b.x\n    end", true),
+        ("wrong type three types deep", "a :: A { b: B { x: 1, c: C { y: \"s\" } } }", false),
+        ("payload field through a variant parameter", "w :: fn q: E do\n        case q do\n            V p -> print(p.c.nope) end\n            else do end\n        end\n    end", false),
     ];
     for (uname, u, valid) in uses {
         let start = format!("start :: fn do\n    {}\n    print(1)\nend", u);
@@ -701,7 +705,7 @@ pub fn run(run: &mut Run) {
     entry_family(&mut run.stats);
     type_order_family(&mut run.stats);
     chain_and_self_family(&mut run.stats);
-    run.rule = "programs with 3 (thorough: also 4) mutable globals whose initialisers are related by up to k edges, each edge one of: read, read inside a called function, read inside a function that is only stored, assignment / compound assignment inside a called function, blob literal field (up to k edges), or a read wrapped in one of 38 further forms (then / else / condition, case scrutinee / arm / else, tuple, list, call argument, unary, and-operand, variant payload, index, immediately called lambda - each directly in the initialiser and inside a function it calls; else-branch / loop body / loop condition / nested block / early ret / inner closure / nested call inside a called function, a method of a blob literal called at once, a read / an assignment in a method of a global blob instance, function alias; alone and combined with one plain read); every permutation of the top-level statements (blob declaration, globals, start) x helper functions before / after, plus the same program with one global moved to an imported file (cyclic import) under every order of that file and a sample of main's orders; plus a three-file project whose modules define their own `start` and `g` under every order of each file's statements (4! x 3! x 4! orders); plus four type declarations that name each other and themselves with one of 8 uses (4 ill-typed, 4 well-typed) under all 120 orders: accepted in all or in none; dependency chains of 10..190 globals in four textual orders; four self-dependent initialisers under all 24 orders; non-trivial = every labelling that is not inherently order-dependent; distinct by edge labelling".into();
+    run.rule = "programs with 3 (thorough: also 4) mutable globals whose initialisers are related by up to k edges, each edge one of: read, read inside a called function, read inside a function that is only stored, assignment / compound assignment inside a called function, blob literal field (up to k edges), or a read wrapped in one of 38 further forms (then / else / condition, case scrutinee / arm / else, tuple, list, call argument, unary, and-operand, variant payload, index, immediately called lambda - each directly in the initialiser and inside a function it calls; else-branch / loop body / loop condition / nested block / early ret / inner closure / nested call inside a called function, a method of a blob literal called at once, a read / an assignment in a method of a global blob instance, function alias; alone and combined with one plain read); every permutation of the top-level statements (blob declaration, globals, start) x helper functions before / after, plus the same program with one global moved to an imported file (cyclic import) under every order of that file and a sample of main's orders; plus a three-file project whose modules define their own `start` and `g` under every order of each file's statements (4! x 3! x 4! orders); plus five type declarations that name each other (a chain of three) and themselves with one of 12 uses (8 ill-typed, 4 well-typed) under all 720 orders: accepted in all or in none; dependency chains of 10..190 globals in four textual orders; four self-dependent initialisers under all 24 orders; non-trivial = every labelling that is not inherently order-dependent; distinct by edge labelling".into();
     run.bounds = json!({"globals": if thorough {"3 with <=3 edges, 4 with <=2 edges"} else {"3 with <=2 edges"}, "labelings": labs.len(), "edge_kinds": KINDS.iter().chain(WRAPPED.iter()).chain(STMT_IN_FN.iter()).map(|k| format!("{:?}", k)).chain(VIA_FN.iter().map(|w| format!("ViaFn({:?})", WRAPPED[*w as usize]))).collect::<Vec<_>>()});
     run.assumptions = vec![
         "reference: RefSylt under every order of the value globals; orders that read or assign an uninitialised global are invalid; if the valid orders disagree the program is inherently order-dependent and excluded; if no order is valid the initialisers are cyclic".into(),
